@@ -251,8 +251,113 @@ def c12_dates(m, o):
     return {"checks": checks, "violations": viol}
 
 
+def c07(m, o):
+    """fixed-step solvers follow the classical recurrences with step = timestep (re-derived from
+    get_comp_rates); row 0 is the initial state"""
+    from fractions import Fraction
+    from jax import numpy as jnp
+    p = {k: float(Fraction(v)) for k, v in (o.get("params") or {}).items()}
+    viol, checks = [], 0
+    runner = m.get_runner(p, jit=False)
+    r0 = runner.impl_dict["one_step"](p)
+    f = runner.impl_dict["get_comp_rates"]
+    sg, md = r0.static_graph_vals, r0.model_data
+    y0 = np.asarray(r0.initial_population, dtype=float)
+    h = float(m.timestep)
+    ts = np.asarray(m.times, dtype=float)
+
+    def rhs(t, y):
+        return np.asarray(f(jnp.array(y), t, sg, md), dtype=float)
+
+    for solver in ("euler", "rk4"):
+        m.run(p, solver=solver, rebuild=True, jit=False)
+        out = np.asarray(m.outputs, dtype=float)
+        if not np.isfinite(out).all():
+            continue
+        checks += 1
+        if np.abs(out[0] - y0).max() > 0:
+            viol.append("%s: row 0 differs from the initial population" % solver)
+        y = y0.copy()
+        for i in range(len(ts) - 1):
+            t = ts[i]
+            if solver == "euler":
+                y = y + h * rhs(t, y)
+            else:
+                k1 = rhs(t, y)
+                k2 = rhs(t + h / 2, y + h / 2 * k1)
+                k3 = rhs(t + h / 2, y + h / 2 * k2)
+                k4 = rhs(t + h, y + h * k3)
+                y = y + h / 6 * (k1 + 2 * k2 + 2 * k3 + k4)
+            checks += 1
+            scale = 1 + np.abs(y).max()
+            if not np.isfinite(y).all():
+                break
+            if np.abs(out[i + 1] - y).max() > 1e-9 * scale:
+                viol.append("%s: row %d = %s, classical update with step %g gives %s" % (
+                    solver, i + 1, np.round(out[i + 1], 8)[:4], h, np.round(y, 8)[:4]))
+                break
+    return {"checks": checks, "violations": viol}
+
+
+def c07_closed(m, o):
+    """closed forms and orders of convergence on models built here (independent of the program)"""
+    import math
+    from summer2 import CompartmentalModel
+    viol, checks = [], 0
+
+    def decay(t0, t1, h, lam, solver, **kw):
+        mm = CompartmentalModel([t0, t1], ["I", "R"], ["I"], timestep=h)
+        mm.set_initial_population({"I": 100.0})
+        mm.add_transition_flow("rec", lam, "I", "R")
+        mm.run(solver=solver, jit=False, **kw)
+        return mm.times, np.asarray(mm.outputs)[:, 0]
+
+    for (t0, t1, h, lam) in o["cases"]:
+        n = int(round((t1 - t0) / h))
+        z = -h * lam
+        ts, e = decay(t0, t1, h, lam, "euler")
+        checks += 1
+        if abs(e[-1] - 100.0 * (1 + z) ** n) > 1e-9 * 100:
+            viol.append("rk4-missing-timestep-or-euler: euler decay t=[%g,%g] h=%g lam=%g: I(end)=%.10g, (1-h*lam)^n gives %.10g" % (t0, t1, h, lam, e[-1], 100.0 * (1 + z) ** n))
+        ts, r = decay(t0, t1, h, lam, "rk4")
+        pz = 1 + z + z * z / 2 + z ** 3 / 6 + z ** 4 / 24
+        checks += 1
+        if abs(r[-1] - 100.0 * pz ** n) > 1e-9 * 100:
+            viol.append("rk4-missing-timestep: rk4 decay t=[%g,%g] h=%g lam=%g: I(end)=%.10g, classical RK4 gives %.10g (exact %.10g)" % (
+                t0, t1, h, lam, r[-1], 100.0 * pz ** n, 100.0 * math.exp(-lam * (t1 - t0))))
+        # adaptive solver: within a small multiple of its tolerances, for two output grids
+        for tol in (1.4e-4, 1.4e-8):
+            ts1, a1 = decay(t0, t1, h, lam, "solve_ivp", solver_args={"rtol": tol, "atol": tol})
+            exact = 100.0 * np.exp(-lam * (np.asarray(ts1) - t0))
+            checks += 1
+            err = np.abs(a1 - exact).max()
+            if err > 50 * tol * (1 + 100.0):
+                viol.append("odeint decay t=[%g,%g] h=%g lam=%g tol=%g: max error %.3g" % (t0, t1, h, lam, tol, err))
+            ts2, a2 = decay(t0, t1, h / 4, lam, "solve_ivp", solver_args={"rtol": tol, "atol": tol})
+            checks += 1
+            if np.abs(a2[::4] - a1).max() > 50 * tol * 101:
+                viol.append("odeint depends on the output grid: h=%g vs h=%g differ by %.3g at common times (tol %g)" % (
+                    h, h / 4, np.abs(a2[::4] - a1).max(), tol))
+    # orders of convergence on a logistic (SI) model
+    def si(h, solver):
+        mm = CompartmentalModel([0, 4], ["S", "I"], ["I"], timestep=h)
+        mm.set_initial_population({"S": 990.0, "I": 10.0})
+        mm.add_infection_frequency_flow("inf", 1.2, "S", "I")
+        mm.run(solver=solver, jit=False)
+        return np.asarray(mm.outputs)[-1, 1]
+    exact = 1000.0 / (1 + 99.0 * math.exp(-1.2 * 4))
+    for solver, lo, hi in (("euler", 1.6, 2.6), ("rk4", 10.0, 24.0)):
+        e1, e2 = abs(si(0.25, solver) - exact), abs(si(0.125, solver) - exact)
+        checks += 1
+        if not (e2 > 0 and lo <= e1 / e2 <= hi):
+            viol.append("%s: error ratio when halving the timestep is %.3g (errors %.3g, %.3g), expected order %s" % (
+                solver, e1 / e2 if e2 else float("inf"), e1, e2, "1" if solver == "euler" else "4"))
+    return {"checks": checks, "violations": viol}
+
+
 ORACLES = {"c01": c01, "c02": c02}
-MODEL_ORACLES = {"c02_traj": c02_traj, "c13": c13, "c12": c12, "c12_dates": c12_dates}
+MODEL_ORACLES = {"c02_traj": c02_traj, "c13": c13, "c12": c12, "c12_dates": c12_dates,
+                 "c07": c07, "c07_closed": c07_closed}
 
 
 def run_oracle(m, o):
